@@ -397,27 +397,28 @@ Definition dec_cfg (l : list Z) : cfg :=
 (* tags 7.. all denote an event without effect on what the buffer does: 7 Flush (bufferWriter is no Flusher), 8 in-place edit
    of header values of the handler's copy, 9 req.Method of the copy rewritten, 10 the request's context cancelled while the
    handler runs *)
-Definition dec_event (t a b : Z) : event :=
+Definition dec_event (refuse : bool) (t a b : Z) : event :=
   if t =? 0 then ESetHeader a b else if t =? 1 then EWriteHeader a else if t =? 2 then EWrite a b
   else if t =? 3 then EReadBody a else if t =? 4 then EScribbleHeader a b else if t =? 5 then EScribbleURL a
-  else if t =? 6 then EHijack else EFlush.
+  else if t =? 6 then (if refuse then EFlush else EHijack)   (* a hijack attempt the connection refuses: nothing happens *)
+  else EFlush.
 
-Fixpoint dec_events (n : nat) (l : list Z) : list event * list Z :=
+Fixpoint dec_events (refuse : bool) (n : nat) (l : list Z) : list event * list Z :=
   match n with
   | O => ([], l)
   | S n' =>
       match l with
-      | t :: a :: b :: r => let '(es, r') := dec_events n' r in (dec_event t a b :: es, r')
+      | t :: a :: b :: r => let '(es, r') := dec_events refuse n' r in (dec_event refuse t a b :: es, r')
       | _ => ([], [])
       end
   end.
 
-Fixpoint dec_scripts (n : nat) (l : list Z) : list (list event) :=
+Fixpoint dec_scripts (refuse : bool) (n : nat) (l : list Z) : list (list event) :=
   match n with
   | O => []
   | S n' =>
       match l with
-      | k :: r => let '(es, r') := dec_events (Z.to_nat k) r in es :: dec_scripts n' r'
+      | k :: r => let '(es, r') := dec_events refuse (Z.to_nat k) r in es :: dec_scripts refuse n' r'
       | [] => []
       end
   end.
@@ -447,7 +448,10 @@ Definition client_body (method : Z) (v : cview) : bytes := if method =? HEAD the
    to ServeHTTP accepts only the first [cut] body bytes (its peer went away): what was written to it — all the
    model of ServeHTTP says — reaches the client up to there; whatever ServeHTTP does on the failed Write, the
    named temporary files are gone when it returns *)
-Definition framing_chunked (f : Z) : Z := if f <? 2 then f else f mod 2.
+Definition framing_chunked (f : Z) : Z := if f <? 0 then (- f - 1) mod 2 else if f <? 2 then f else f mod 2.
+(* negative framing -1 | -2: declared length | chunked, and the connection refuses to be hijacked (the writer handed to
+   ServeHTTP implements http.Hijacker and answers with an error): a hijack attempt of the handler then changes nothing *)
+Definition framing_refuses (f : Z) : bool := f <? 0.
 Definition framing_cut (f : Z) : Z := if f <? 2 then -1 else (f - 2) / 2.
 Definition cut_body (cut : Z) (b : bytes) : bytes := if cut <? 0 then b else ztake cut b.
 
@@ -460,7 +464,7 @@ Definition exchange (c : cfg) (op : list Z) : list Z :=
       let chunked := framing_chunked framing in
       let cut := framing_cut framing in
       let '(hd, r1) := dec_hdrs (Z.to_nat nh) r in
-      let scripts := match r1 with ns :: r2 => dec_scripts (Z.to_nat ns) r2 | [] => [] end in
+      let scripts := match r1 with ns :: r2 => dec_scripts (framing_refuses framing) (Z.to_nat ns) r2 | [] => [] end in
       let body := gen_body bid blen_ in
       let hp := [OUrl url; OHdr hd] in
       let rq := {| q_method := method; q_url := 0%nat; q_hdr := 1%nat;
@@ -483,7 +487,7 @@ Definition exchange_tmps (c : cfg) (op : list Z) : list Z :=
   | method :: url :: bid :: blen_ :: framing :: nh :: r =>
       let chunked := framing_chunked framing in
       let '(hd, r1) := dec_hdrs (Z.to_nat nh) r in
-      let scripts := match r1 with ns :: r2 => dec_scripts (Z.to_nat ns) r2 | [] => [] end in
+      let scripts := match r1 with ns :: r2 => dec_scripts (framing_refuses framing) (Z.to_nat ns) r2 | [] => [] end in
       let body := gen_body bid blen_ in
       let rq := {| q_method := method; q_url := 0%nat; q_hdr := 1%nat;
                    q_cl := if chunked =? 0 then blen body else -1;
